@@ -350,7 +350,15 @@ pub fn stream_serde(out: &mut impl Write, seed: u64, budget: usize) {
             6 => { let mut bb = bin.clone(); bb[0] = 49 + rng.below(200) as u8; text = String::from_utf8(hash_text_raw(vi, &bb)).unwrap(); }
             _ => {}
         }
+        // the text as a *bytes* event with one byte that is not valid UTF-8 (a human-readable format may
+        // deliver bytes; the visitor must answer with an error, whatever it puts into the message)
+        let mut tb = text.as_bytes().to_vec();
+        if !tb.is_empty() {
+            let p = rng.below(tb.len() as u64) as usize;
+            tb[p] = 0x80 + rng.below(0x80) as u8;
+        }
         let evs = [
+            Ev::Bytes(tb.clone()), Ev::BorrowedBytes(tb.clone()), Ev::ByteBuf(tb.clone()),
             Ev::Str(text.clone()), Ev::BorrowedStr(text.clone()), Ev::StringOwned(text.clone()),
             Ev::Bytes(b.clone()), Ev::BorrowedBytes(b.clone()), Ev::ByteBuf(b.clone()),
             Ev::Bytes(text.as_bytes().to_vec()), Ev::Str(String::from_utf8_lossy(&b).to_string()),
@@ -359,7 +367,7 @@ pub fn stream_serde(out: &mut impl Write, seed: u64, budget: usize) {
         ];
         let k = rng.below(evs.len() as u64) as usize;
         for (j, ev) in evs.iter().enumerate() {
-            if j < 8 || j == k {
+            if j < 11 || j == k {
                 emit_de(out, vi, true, ev);
                 emit_de(out, vi, false, ev);
             }
